@@ -23,7 +23,7 @@ ASSUMPTIONS = [
 ]
 COMPONENTS = {"real": ["twosigma.memento (all)", "CPython file API", "tmpfs directory tree", "process death via fork/_exit"],
               "stub": ["uuid4 (seeded)", "wall clock (virtual)", "user program (fixed scenario module)"]}
-REACH = ["twin_asked_first", "fired:crash-before", "fired:error-before", "fired:crash-after-open", "fired:torn", "fired:short-error",
+REACH = ["non_ascii_store_path", "window_cases", "twin_asked_first", "fired:crash-before", "fired:error-before", "fired:crash-after-open", "fired:torn", "fired:short-error",
          "fired:error-first-write", "dedup_path_taken", "recovered_after_fault"]
 
 PROGRAM = '''
@@ -361,6 +361,22 @@ def cases(tier, seed):
                         # afterwards (before a later successful write of the faulted call could repair anything)
                         out.append({"scenario": scn, "cfg": cfg, "faults": [dict(f)], "kind": kind, "after": "twin-first",
                                     "pclass": path_class(kind, rel), "idseed": 100 + len(out)})
+    # the store lives under a directory with a non-ASCII name and a link file (it holds an absolute path) is torn inside a
+    # multi-byte character
+    for scn in ("S1-first", "S2-dedup", "S7-override", "S4-partition"):
+        for cfg in configs:
+            for (k, kind, rel) in base[(scn, cfg["cache"], cfg["sep_meta"])]:
+                if kind == "open-w" and (rel.endswith(".link") or ".link" in os.path.basename(rel)):
+                    for v in ("torn", "short-error"):
+                        out.append({"scenario": scn, "cfg": dict(cfg, unicode=True), "faults": [dict(variant=v, k=k, life=0, cut="midchar", errno="ENOSPC")],
+                                    "kind": kind, "pclass": path_class(kind, rel), "idseed": 100 + len(out)})
+    # a fault that lasts: every mutating event is refused while the first K calls of a lifetime run (disk full / no
+    # permission for a while); when it is over, the SAME process must memoize again
+    for cfg in configs:
+        for errno in ("ENOSPC", "EACCES"):
+            for K in (1, 2, 3, 4, 5, 6, 8, 12):
+                out.append({"scenario": "W-window", "cfg": cfg, "window": K, "errno": errno, "faults": [], "kind": "window",
+                            "pclass": "window", "idseed": 100 + len(out)})
     if tier == "thorough":
         rng = core.stream(seed, "c08-sequences")
         keys = sorted(base)
@@ -379,11 +395,87 @@ def cases(tier, seed):
     return out
 
 
+def _execute_window(case):
+    """The store refuses every mutation while the first N calls run (disk full / no permission for a while); then the fault
+    is gone and the SAME process must memoize again: of two equal calls the second is served."""
+    cfg = case["cfg"]
+    N = case["window"]
+    root = core.new_scratch("c08w")
+    viol, stats, log = [], {"window_cases": 1}, []
+    during = [("call", "f", i) for i in range(1, N + 1)] + ([("call", "fp", 1)] if N % 2 == 0 else [])
+    after = [("call", "f", 88), ("call", "f", 88), ("call", "f", 1), ("call", "f", 1), ("call", "g", 2), ("call", "g", 2),
+             ("call", "fp", 1), ("call", "fp", 1), ("call", "f", 88)]
+
+    def body(emit):
+        world.install_seams(case["idseed"])
+        side = world.SideChannel()
+        storage = world.make_storage("filesystem", root, cache_mb=5 if cfg["cache"] else None, sep_meta=cfg["sep_meta"])
+        world.make_env(root, storage)
+        mod = world.load_module("vprog", PROGRAM)
+        plan = {k: {"variant": "error-before", "k": k, "life": 0, "errno": case["errno"]} for k in range(1, 4000)}
+        simfs.arm(world.store_roots(root, cfg["sep_meta"]), plan=plan, sink=None)
+        _run_script(mod, side, during, emit, "during")
+        nf = len(simfs.S.fired)
+        simfs.set_plan({})
+        simfs.S.armed_open = None
+        _run_script(mod, side, after, emit, "after")
+        simfs.disarm()
+        emit({"tag": "window", "events": len(simfs.S.log), "fired": nf})
+    steps = 0
+    try:
+        ev, _ = core.lifetime(body)
+        log.append(ev)
+        ops = [e for e in ev if "op" in e]
+        info = [e for e in ev if e.get("tag") == "window"][-1]
+        steps = info["events"]
+        stats["fired:error-before"] = info["fired"]
+        for e in ops:
+            if e["res"] != expect_op(e["op"]):
+                viol.append(("wrong-or-raised-in-faulted-lifetime", e))
+        seen_once = set()
+        for e in ops[len(during):]:
+            key = (e["op"][1], e["op"][2])
+            if key in seen_once and e["runs"]:
+                viol.append(("recompute-forever", {"in": "same-process-after-the-fault", "op": e["op"], "runs": e["runs"], "calls_under_fault": N}))
+                break
+            seen_once.add(key)
+        # and a fresh process finds everything memoized
+        ev2, _ = _lifetime(root, cfg, case["idseed"] + 50, [("call", "f", 88), ("call", "f", 1), ("call", "g", 2), ("call", "fp", 1)], None, "fresh", scan=True)
+        log.append(ev2)
+        for e in ev2:
+            if "op" in e:
+                if e["res"] != expect_op(e["op"]):
+                    viol.append(("wrong-or-raised-after-fault", {"op": e["op"], "res": e["res"]}))
+                elif e["runs"] and not viol:
+                    viol.append(("recompute-forever", {"in": "fresh-process", "op": e["op"], "runs": e["runs"]}))
+            if "scan" in e and e["scan"]["bad"]:
+                viol.append(("store-integrity", e["scan"]["bad"][:3]))
+        if not viol:
+            stats["recovered_after_fault"] = 1
+    finally:
+        shutil.rmtree(root, ignore_errors=True)
+    feats = {"scenario": "W", "event": "window", "path": "any", "variant": "error-before", "errno": case["errno"],
+             "length": "short" if N <= 2 else "long"}
+    out, seen = [], set()
+    for clause, detail in viol:
+        if clause not in seen:
+            seen.add(clause)
+            out.append(core.violation(clause, feats, detail))
+    dg = core.digest_of(log)
+    return {"violations": out, "digest": dg, "nontrivial": bool(stats.get("fired:error-before")), "stats": stats, "steps": steps,
+            "key": core.digest_of(["W", cfg, N, case["errno"], dg]), "sample": {"scenario": "W-window", "cfg": cfg, "calls_under_fault": N}}
+
+
 def execute(case):
+    if case.get("kind") == "window":
+        return _execute_window(case)
     scn = case["scenario"]
     cfg = case["cfg"]
     pre, target, twin = SCENARIOS[scn]
-    root = core.new_scratch("c08")
+    root = scratch = core.new_scratch("c08")
+    if cfg.get("unicode"):
+        root = root + "/st\u00f4re-\u00fc"
+        os.makedirs(root)
     viol = []
     stats = {}
     log = []
@@ -424,6 +516,9 @@ def execute(case):
         if case.get("after"):
             feats["after"] = case["after"]
         feats.update(fault_desc or {"event": case["kind"], "path": case["pclass"], "variant": case["faults"][0]["variant"]})
+        if cfg.get("unicode"):
+            feats["store_path"] = "non-ascii"
+            stats["non_ascii_store_path"] = 1
         if len(case["faults"]) > 1:
             feats["nfaults"] = len(case["faults"])
         # (b)(c) fault-free lifetimes
@@ -460,7 +555,7 @@ def execute(case):
         if pre and scn in ("S2-dedup", "S4b-partition-dedup"):
             stats["dedup_path_taken"] = 1
     finally:
-        shutil.rmtree(root, ignore_errors=True)
+        shutil.rmtree(scratch, ignore_errors=True)
     # one violation per clause, classified by the fault that fired
     out = []
     seen = set()
